@@ -217,6 +217,9 @@ def run(c, chk):
     flag_words(c, chk, rid_ctx='R16.6')
     from . import c02 as _c02
     _c02.table_growth(c, chk, 'R16.8')
+    # R16.10: "every section instance created later still gets the declared sub-options and defaults"
+    from . import c01 as _c01, c08 as _c08
+    _c01.section_store(c, _c08.chk_proxy(chk, {'R1.11': 'R16.10'}), sym.Explorer(c.modules, max_visits=2, mod_sets=c.mod_sets, max_paths=60000))
     # R16.9: instances disappear only when the application removes them
     chk.rule('R16.9', 'sections are removed only through the removal calls of the API: neither the parser nor a setter takes an instance out of an option')
     from .. import cfg as _cfgm
